@@ -473,6 +473,7 @@ def extract(ctx):
             rows.append(f"      /- {j}: <{', '.join(tshow(U, s) for s in e)}> -> {fname(f)} -/\n      ["
                         + ", ".join(slotlean(s) for s in e) + "]")
         r.append(",\n".join(rows) + "],")
+        r.append("    rules := [" + ", ".join('"' + fname(f).replace('"', "'") + '"' for f in it["funcs"]) + "],")
         r.append("    order := [" + ", ".join(map(str, it["order"])) + "],")
         r.append("    ambig := [" + ", ".join(f"({a}, {b})" for a, b in it["ambig"]) + "] }\n")
         names.append(f"d{i}")
@@ -1289,7 +1290,26 @@ def real_most_specific(it, types, func):
     cand = [i for i in M if it["disp"].funcs[sigs[i]] is func]
     sup = md_conflict.supercedes
     minimal = [i for i in cand if not any(sup(sigs[j], sigs[i]) and not sup(sigs[i], sigs[j]) for j in M)]
-    return bool(minimal), M, cand
+    least = [i for i in cand if all(sup(sigs[i], sigs[j]) for j in M)]
+    return bool(minimal), M, cand, bool(least)
+
+
+KF_AMBIG = "KF-precondition-ambiguous-patterns"
+KF_AMBIG_DISPATCHER = "funsor.precondition.Precondition[Approximate]"
+KF_AMBIG_RULES = ("funsor.precondition.precondition_approximate_contraction",
+                  "funsor.precondition.precondition_approximate_gaussian_mixture")
+
+
+def kf_ambiguity_region(it, real_types):
+    """fingerprint of the open finding: this dispatcher, and the signatures of BOTH named rules accept
+    the argument types (decided before looking at what dispatch does)"""
+    if it["name"] != KF_AMBIG_DISPATCHER:
+        return False
+    hit = set()
+    for s, f in zip(it["sigs"], it["funcs"]):
+        if fname(f) in KF_AMBIG_RULES and real_matches(real_types, s):
+            hit.add(fname(f))
+    return len(hit) == 2
 
 
 def instantiate(U, rng, tr, argpool, depth=0):
@@ -1422,10 +1442,12 @@ def dispatch_python(U, it, tys):
                               types=", ".join(pyrepr(U, t) for t in tys))
 
 
-def part_dispatch(ctx, U, D, observed, use_driver=True):
+def part_dispatch(ctx, U, D, observed, use_driver=True, kf_cases=None):
     cases = gen_dispatch_cases(ctx, U, D, observed)
     rng = ctx.rng
     results = {}
+    if kf_cases is None:
+        kf_cases = []
     reqs = []
     for ci, (di, tys, origin) in enumerate(cases):
         it = D.items[di]
@@ -1443,9 +1465,25 @@ def part_dispatch(ctx, U, D, observed, use_driver=True):
             if f is None:
                 results[ci] = ("none", None)
             else:
-                ok, M, cand = real_most_specific(it, real_types, f)
+                ok, M, cand, least = real_most_specific(it, real_types, f)
                 results[ci] = ("found", cand)
                 ctx.count(f"dispatch:matching={min(len(M), 4)}{'+' if len(M) >= 4 else ''}")
+                if kf_ambiguity_region(it, real_types):
+                    # region of the open finding: handled by its dedicated stream, not by the clean one
+                    ctx.count("dispatch:in-region-of-" + KF_AMBIG)
+                    kf_cases.append((it, tys, real_types, f, least))
+                elif not least:
+                    sup = md_conflict.supercedes
+                    mins = [i for i in M if not any(sup(it["sigs"][j], it["sigs"][i]) and not sup(it["sigs"][i], it["sigs"][j]) for j in M)]
+                    ctx.fail("input", "C16.no-most-specific-rule",
+                             witness=dict(dispatcher=it["name"], types=[tshow(U, t) for t in tys], chosen=fname(f),
+                                          incomparable_minimal=[dict(sig=[tshow(U, s) for s in it["enc"][i]], rule=fname(it["funcs"][i])) for i in mins],
+                                          tree=list(tys)),
+                             expected="a matching pattern at least as specific as every other matching pattern",
+                             got=f"{len(mins)} pairwise incomparable minimal matching patterns; {fname(f)} runs",
+                             python=dispatch_python(U, it, tys).replace("FAILS = bool(M) and not ok",
+                                                                        "FAILS = bool(M) and not any(all(supercedes(s, o) for o in M) for s in cand)"))
+                    return None
                 if not ok:
                     ctx.fail("input", "C16.chosen-rule-not-most-specific",
                              witness=dict(dispatcher=it["name"], types=[tshow(U, t) for t in tys], chosen=fname(f),
@@ -1474,9 +1512,9 @@ def part_dispatch(ctx, U, D, observed, use_driver=True):
                     ctx.infra_errors.append(f"Lean model: first match {mi} not minimal among {matching} on {reqs[ci][:300]}")
                     return None
                 if [str(x) for x in least]:
-                    ctx.count("dispatch:least-exists")
+                    ctx.count("dispatch:model:least-exists")
                 else:
-                    ctx.count("dispatch:no-least-element")
+                    ctx.count("dispatch:model:no-least-element")
             agree = (mk == kind) and (mk != "found" or it["funcs"][int(res[1])] is it["funcs"][cand[0]] if cand else mk == kind)
             if kind == "found" and mk == "found":
                 agree = any(it["funcs"][int(res[1])] is it["funcs"][c] for c in cand)
@@ -1637,6 +1675,50 @@ def part_subprocess(ctx, U, D, cases, usable, base):
     ctx.count("subprocess:dispatchers-with-process-dependent-ordering", len(differing))
 
 
+def part_known_ambiguity(ctx, U, D, kf_cases):
+    """dedicated stream for KF-precondition-ambiguous-patterns: two registered patterns overlap, neither
+    is more specific, nothing more specific covers the overlap"""
+    it = next((i for i in D.items if i["name"] == KF_AMBIG_DISPATCHER), None)
+    rep, wit = False, None
+    if it is not None:
+        idx = [i for i, f in enumerate(it["funcs"]) if fname(f) in KF_AMBIG_RULES]
+        if not kf_cases and len(idx) == 2:
+            # build a witness deterministically: instantiate below the narrower tuple pattern
+            import random as _r
+            rng = _r.Random(16)
+            argpool = [("c", U.ids[c]) for c in (int, str, float, np.ndarray)]
+            for _ in range(400):
+                si = idx[_ % 2]
+                try:
+                    tys = tuple(canon(U, instantiate(U, rng, s[1], argpool)) for s in it["enc"][si])
+                    rt = tuple(typing_wrap(U.dec(t)) for t in tys)
+                except Exception:
+                    continue
+                if kf_ambiguity_region(it, rt):
+                    with warnings.catch_warnings():
+                        warnings.simplefilter("ignore")
+                        f = it["disp"].dispatch(*rt)
+                    kf_cases.append((it, tys, rt, f, real_most_specific(it, rt, f)[3]))
+                    break
+        for it_, tys, rt, f, least in kf_cases:
+            ctx.count("known:" + KF_AMBIG + ":cases")
+            if not least:
+                rep = True
+                wit = dict(dispatcher=it_["name"], types=[tshow(U, t) for t in tys], chosen=fname(f))
+    ctx.count(f"known:{KF_AMBIG}:{'reproduced' if rep else 'absent'}")
+    what = ("Precondition[Approximate]: the patterns of precondition_approximate_contraction and "
+            "precondition_approximate_gaussian_mixture both match e.g. " + (str(wit["types"]) if wit else "-") +
+            ", neither supercedes the other and no more specific pattern covers the overlap; multipledispatch's "
+            "ambiguity check misses it, the rule that runs is decided by toposort order")
+    if not ctx.known(KF_AMBIG, reproduced=rep, what=what) and rep:
+        it_, tys, rt, f, least = next(c for c in kf_cases if not c[4])
+        ctx.fail("input", "C16.no-most-specific-rule", witness=dict(wit, tree=list(tys)),
+                 expected="a matching pattern at least as specific as every other matching pattern",
+                 got=f"two incomparable minimal matching patterns; {fname(f)} runs",
+                 python=dispatch_python(U, it_, tys).replace("FAILS = bool(M) and not ok",
+                                                            "FAILS = bool(M) and not any(all(supercedes(s, o) for o in M) for s in cand)"))
+
+
 def part_known_finding(ctx, U):
     """dedicated stream for KF-tuple-subclass"""
     T = typing
@@ -1690,7 +1772,9 @@ def correspond(ctx):
     if clean is None or ctx.infra_errors:
         return
     part_values(ctx, U, D, clean, observed)
-    r = part_dispatch(ctx, U, D, observed)
+    kf_cases = []
+    r = part_dispatch(ctx, U, D, observed, kf_cases=kf_cases)
+    part_known_ambiguity(ctx, U, D, kf_cases)
     if r is not None:
         cases, results = r
         cu = part_cache_and_order(ctx, U, D, cases, results)
